@@ -41,6 +41,7 @@ LEVEL = 'model_checking'
 
 SAMPLE_ACTIONS = ['ATake', 'ASubset', 'AAdd', 'AMul', 'AZip']
 GAUSS_ACTIONS = ['WithChildren', 'Trim']
+ACTION_OP = dict(ATake='take', ASubset='subset', AAdd='add', AMul='mul', AZip='zip', WithChildren='children', Trim='trim')
 SAMPLE_MUTANTS = {'mul-index-strides': 'EvalOrder', 'add-no-offset': 'IndexPartition', 'take-no-compose': 'OpLaw',
                   'zip-no-weights': 'Quadrature', 'take-unsorted': 'OpLaw'}
 GAUSS_MUTANTS = {'child-map': 'ChildrenTile', 'simplex-moment': 'RefVolume'}
@@ -74,8 +75,8 @@ def plan(tier, seed, tables):
     jobs = collections.OrderedDict()
     env = lambda which: dict(VF_TABLE=tables[which])
     if tier == 'quick':
-        jobs['sample'] = ('MCSampleAlg', dict(cfg='MCSampleAlg.cfg', env=env('quick'), coverage=True, workers=4), True)
-        jobs['gauss'] = ('MCGaussOracle', dict(cfg='MCGaussOracle.cfg', env=env('gauss'), coverage=True, workers=4), True)
+        jobs['sample'] = ('MCSampleAlg', dict(cfg='MCSampleAlg.cfg', env=env('quick'), workers=4), True)
+        jobs['gauss'] = ('MCGaussOracle', dict(cfg='MCGaussOracle.cfg', env=env('gauss'), workers=4), True)
         # one spec mutant per run (all of them in the thorough tier)
         muts = sorted(SAMPLE_MUTANTS) + sorted(GAUSS_MUTANTS)
         muts = [muts[seed % len(muts)]]
@@ -162,8 +163,16 @@ def run(rep):
         rep.add_tlc(res, exhaustive=jobs[name][2])
         if res.violated:
             raise RuntimeError('design spec {} violates {}:\n{}'.format(name, res.violated, '\n'.join(res.error_trace[:60])))
+    # vacuity guard: every action of both machines was taken.  The thorough tier reads TLC's own coverage statistics; the
+    # quick tier counts the states each action produced (every emitted state names the operation that created it)
     for name, actions in (('sample', SAMPLE_ACTIONS), ('gauss', GAUSS_ACTIONS)):
-        cov = results[name].coverage
+        if quick:
+            last = collections.Counter((e['ops']['o'] if 'ops' in e else e['cfg']['op']) for e in results[name].emitted if 'ops' in e or 'moments' in e)
+            cov = {a: (last[ACTION_OP[a]], last[ACTION_OP[a]]) for a in actions}
+            for a in actions:
+                rep.actions[a] = rep.actions.get(a, 0) + cov[a][1]
+        else:
+            cov = results[name].coverage
         missing = [a for a in actions if cov.get(a, (0, 0))[1] == 0]
         if missing:
             raise RuntimeError('{}: actions never taken: {}'.format(name, missing))
@@ -205,7 +214,7 @@ def run(rep):
     rep.extra['nestings_without_elementwise_access'] = len(unsupported)
     rep.extra['shortest_nesting_without_elementwise_access'] = cs.ops_str(min(unsupported, key=lambda b: (b['nops'], len(cs.ops_str(b['ops']))))['ops'])
     # all nestings of at most one operation, the counterexample of Total, and a seeded selection of the deeper ones
-    budget = 420 if quick else 9000
+    budget = 320 if quick else 9000
     first = lambda b: b['nops'] <= 1 or cs.ops_key(b['ops']) == total_key
     shallow = [b for b in states if first(b)]
     deep = [b for b in states if not first(b)]
